@@ -26,7 +26,11 @@ RECONF_SRC = ["Lib/core/mod.c", "Lib/core/src.c"] + BASE + ["Lib/structs/map.c",
 RECONF_FP = core_fp(mem_dtors=[SRC_DTOR])
 PRE = {0: "fresh", 1: "configured", 2: "restarted", 3: "twocalls"}
 RECONF = {
-    "quick": [(0, {}), (1, {}), (2, {}), (3, {"VF_R1": 3, "VF_B1": 2})],
+    "quick": [(0, {}), (1, {}), (2, {}), (3, {"VF_R1": 3, "VF_B1": 2}),
+              # the new period must belong to the NEW rate: concrete second rates (the product test folds), incl. a pair
+              # of rates congruent modulo 2^16 (mod_tb_t.rate is a uint16_t)
+              (3, {"VF_R1": 65541, "VF_B1": 4, "VF_R2": 5}), (3, {"VF_R1": 7, "VF_B1": 4, "VF_R2": 7}),
+              (3, {"VF_R1": 5, "VF_B1": 4, "VF_R2": 131077})],
     "thorough": [(0, {}), (1, {}), (2, {})] + [(3, {"VF_R1": r, "VF_B1": b}) for r in (1, 3, 7, 1000000000)
                                                for b in (1, 2)],
 }
@@ -109,7 +113,7 @@ def jobs(tier):
     for pre, extra in RECONF[tier]:
         d = {"VF_PRE": pre, "VF_RESET_MODULE": fl("reset_module", "mod.c")}
         d.update(extra)
-        nm = "C18.reconf.%s" % PRE[pre] + ("." if extra else "") + "".join("%s%s" % (k[3].lower(), v) for k, v in sorted(extra.items(), reverse=True))
+        nm = "C18.reconf.%s" % PRE[pre] + ("." if extra else "") + "".join("%s%s" % (k[3:].lower(), v) for k, v in sorted(extra.items(), reverse=True))
         sym = ["rate (uint32_t, 0..10^9)", "burst (uint64_t, full width)", "period of the user's timer (uint64_t)"]
         if pre in (1, 2):
             sym += ["earlier configuration: period (1..10^9), burst, tokens <= burst (0 included)"]
